@@ -62,6 +62,9 @@ func (e *Exec) call(st *State, instr ssa.Instruction, cc *ssa.CallCommon, b *ssa
 		args = append(args, e.val(st, a))
 	}
 	resVal, _ := instr.(ssa.Value)
+	if _, isBuiltin := cc.Value.(*ssa.Builtin); !isBuiltin || cc.IsInvoke() {
+		e.interfere(st)
+	}
 	e.atAnchor(st, instr, args, &fnv)
 	if st.dead {
 		return true
@@ -303,6 +306,7 @@ func (e *Exec) contractCall(st *State, instr ssa.Instruction, fc *FuncContract, 
 		if lv.Sub == nil {
 			continue
 		}
+		e.checkLockDeclared(st, instr, lv)
 		if h := st.holds(lv.T[0]); h != nil {
 			if !h.Read {
 				e.oblige(st, "lockorder", fmt.Sprintf("%s/selfdeadlock:%s", anchor, fc.LockTexts[i]), nil, "callee "+name+" acquires a lock the caller holds", "false", pos)
@@ -335,7 +339,16 @@ func (e *Exec) contractCall(st *State, instr ssa.Instruction, fc *FuncContract, 
 			e.contractError(fc, &Clause{Text: "let " + l.Name, Line: fc.Line}, err)
 		}
 	}
+	// well-formedness of results by type
+	e.assumeResultWF(st, res, resType)
+	internal := map[string]bool{}
+	for _, g := range fc.Ghosts {
+		internal[g.Name] = true
+	}
 	for _, c := range fc.Ensures {
+		if mentionsInternal(c.Expr, internal) {
+			continue // postconditions over the callee's ghost state / event counters are proved there, not exported
+		}
 		if freshTarget(c.Expr) != "" {
 			if rv, ok := scope[freshTarget(c.Expr)]; ok && len(rv.T) >= 1 {
 				r := e.allocRef(st, "callee")
@@ -359,8 +372,86 @@ func (e *Exec) contractCall(st *State, instr ssa.Instruction, fc *FuncContract, 
 			st.counts[strings.TrimPrefix(eff, "event:")]++
 		}
 	}
+	if st.counts["stable-dirty"] > 0 {
+		st.counts["stable-dirty"] = 0
+		e.stableInvs(st, true, instr, "after@"+anchor)
+	} else {
+		e.stableInvs(st, false, instr, "")
+	}
 	st.calls[shortName(name)] = callRecord{Args: args, Results: res}
+	st.counts["call:"+shortName(name)]++
+	st.events = append(st.events, "call:"+shortName(name))
 	k(st, res)
+}
+
+func (e *Exec) assumeResultWF(st *State, res Val, t types.Type) {
+	if t == nil {
+		return
+	}
+	if tt, ok := t.(*types.Tuple); ok {
+		off := 0
+		for i := 0; i < tt.Len(); i++ {
+			n := len(shape(tt.At(i).Type()))
+			if off+n <= len(res.T) {
+				e.assumeResultWF(st, Val{T: res.T[off : off+n]}, tt.At(i).Type())
+			}
+			off += n
+		}
+		return
+	}
+	switch t.Underlying().(type) {
+	case *types.Interface:
+		if len(res.T) == 2 && !isTypeParam(t) {
+			st.assume(app(">=", res.T[0], "0"))
+			st.assume(tImp(tEq(res.T[0], "0"), tEq(res.T[1], "0")))
+			if isProtoOneof(t) {
+				st.assume(tImp(tNot(tEq(res.T[0], "0")), tNot(tEq(res.T[1], "0"))))
+			}
+		}
+	case *types.Slice:
+		if len(res.T) == 4 {
+			st.assume(app("bvule", res.T[2], res.T[3]))
+			st.assume(app("bvule", res.T[3], bvLitI(1<<40, 64)))
+			st.assume(app("bvule", res.T[1], bvLitI(1<<40, 64)))
+			st.assume(tImp(tEq(res.T[0], "0"), tEq(res.T[3], bvLitI(0, 64))))
+		}
+	case *types.Pointer, *types.Map, *types.Chan, *types.Signature:
+		if len(res.T) == 1 {
+			st.assume(app(">=", res.T[0], "0"))
+		}
+	}
+}
+
+// mentionsInternal: the expression refers to a ghost local of the callee or to a path event counter.
+func mentionsInternal(x Expr, ghosts map[string]bool) bool {
+	switch x := x.(type) {
+	case *EIdent:
+		return ghosts[x.Name]
+	case *EUn:
+		return mentionsInternal(x.X, ghosts)
+	case *EBin:
+		return mentionsInternal(x.L, ghosts) || mentionsInternal(x.R, ghosts)
+	case *ESel:
+		return mentionsInternal(x.X, ghosts)
+	case *EIndex:
+		return mentionsInternal(x.X, ghosts) || mentionsInternal(x.I, ghosts)
+	case *ESlice:
+		return mentionsInternal(x.X, ghosts) || (x.Lo != nil && mentionsInternal(x.Lo, ghosts)) || (x.Hi != nil && mentionsInternal(x.Hi, ghosts))
+	case *ECall:
+		if x.F == "count" || x.F == "won" || x.F == "held" {
+			return true
+		}
+		for _, a := range x.Args {
+			if mentionsInternal(a, ghosts) {
+				return true
+			}
+		}
+	case *EIs:
+		return mentionsInternal(x.X, ghosts)
+	case *EForall:
+		return mentionsInternal(x.Body, ghosts)
+	}
+	return false
 }
 
 func shortName(n string) string {
@@ -508,6 +599,22 @@ func (e *Exec) havocAbstract(st *State, kind string, ov Val) {
 		if pt, ok := ov.Typ.Underlying().(*types.Pointer); ok {
 			e.havocLoc(st, e.derefLoc(st, ov, pt.Elem()), false)
 		}
+	case "rcancelled", "rclosed":
+		key := "recv#" + strings.TrimPrefix(kind, "r")
+		r := ov.T[len(ov.T)-1]
+		a := e.curArr(st, key, arr(SInt, SBool))
+		st.wrote(key, r)
+		nv := e.fresh("hv:"+kind, SBool)
+		st.assume(tImp(app("select", a, r), nv)) // monotone
+		e.setArr(st, key, arr(SInt, SBool), app("store", a, r, nv))
+		st.counts["stable-dirty"]++
+	case "cancel":
+		// the cancel function may have been called (monotone)
+		a := e.curArr(st, "ctx#cancelled", arr(SInt, SBool))
+		st.wrote("ctx#cancelled", ref)
+		nv := e.fresh("hv:cancelled", SBool)
+		st.assume(tImp(app("select", a, ref), nv))
+		e.setArr(st, "ctx#cancelled", arr(SInt, SBool), app("store", a, ref, nv))
 	case "elems":
 		if slt, ok := ov.Typ.Underlying().(*types.Slice); ok {
 			for _, l := range shape(slt.Elem()) {
@@ -813,6 +920,9 @@ func (e *Exec) afterAnchor(st *State, instr ssa.Instruction, args []Val, res Val
 		}
 		scope := e.anchorScope(st, args, nil)
 		scope["result"] = res
+		if v, ok := instr.(ssa.Value); ok && v.Type() != nil {
+			e.bindResults(scope, res, v.Type(), nil)
+		}
 		e.runAtClause(st, fc, c, i, instr, scope)
 	}
 }
